@@ -47,7 +47,7 @@ FaultOf(ev) == IF ev.fault = "inject" THEN (IF ev.kind = 0 THEN "inject0" ELSE I
 D2 == [c2s |-> 0, s2c |-> 0]
 TP == {257, 771, 772}
 TC == {}
-Blank == /\ proto = 0 /\ mutual = FALSE
+Blank == /\ proto = 0 /\ mutual = FALSE /\ cmutual = FALSE
          /\ cred = [sOK |-> TRUE, sPoss |-> TRUE, sEnc |-> TRUE, cCert |-> TRUE, cOK |-> TRUE, cPoss |-> TRUE]
          /\ cpc = 0 /\ spc = 0 /\ c2m = <<>> /\ m2s = <<>> /\ s2m = <<>> /\ m2c = <<>>
          /\ held = [c2s |-> <<>>, s2c |-> <<>>] /\ first = [c2s |-> <<>>, s2c |-> <<>>]
@@ -57,7 +57,7 @@ Blank == /\ proto = 0 /\ mutual = FALSE
          /\ cret = 0 /\ sret = 0 /\ ckeys = <<>> /\ skeys = <<>> /\ cpend = 0 /\ spend = 0 /\ cshut = 0 /\ sshut = 0
          /\ cav = FALSE /\ sav = FALSE /\ cfin = FALSE /\ sfin = FALSE /\ ceof = FALSE /\ seof = FALSE
          /\ wpos = D2 /\ wmax = D2 /\ rpos = D2
-BlankNext == /\ proto' = 0 /\ mutual' = FALSE
+BlankNext == /\ proto' = 0 /\ mutual' = FALSE /\ cmutual' = FALSE
          /\ cred' = [sOK |-> TRUE, sPoss |-> TRUE, sEnc |-> TRUE, cCert |-> TRUE, cOK |-> TRUE, cPoss |-> TRUE]
          /\ cpc' = 0 /\ spc' = 0 /\ c2m' = <<>> /\ m2s' = <<>> /\ s2m' = <<>> /\ m2c' = <<>>
          /\ held' = [c2s |-> <<>>, s2c |-> <<>>] /\ first' = [c2s |-> <<>>, s2c |-> <<>>]
@@ -72,13 +72,13 @@ TraceInit == Blank /\ l = 1 /\ TLCSet(1, 1)
 
 (* ------------------------------ silent steps ------------------------------ *)
 KeepT == UNCHANGED tvars
-SilentHs == (CSend \/ CRecvOK \/ CFail \/ SSend \/ SRecvOK \/ SFail) /\ KeepT
+SilentHs == (CSend \/ CRecvOK \/ CFail \/ CSkipCR \/ SSend \/ SRecvOK \/ SFail) /\ KeepT
 \* failing at a send step (e.g. the peer is gone) is possible only when the run is not honest
 CFailSend == /\ CRunning /\ ~Honest /\ cpc' = 0
-             /\ UNCHANGED <<proto, mutual, cred, spc, c2m, m2s, s2m, m2c, held, first, ctr, str, cwseq, swseq, crseq, srseq, csent, ssent,
+             /\ UNCHANGED <<proto, mutual, cmutual, cred, spc, c2m, m2s, s2m, m2c, held, first, ctr, str, cwseq, swseq, crseq, srseq, csent, ssent,
                             cgot, sgot, budget, hsFault, closed, capp, sapp, cacc, sacc>> /\ KeepT
 SFailSend == /\ SRunning /\ ~Honest /\ spc' = 0
-             /\ UNCHANGED <<proto, mutual, cred, cpc, c2m, m2s, s2m, m2c, held, first, ctr, str, cwseq, swseq, crseq, srseq, csent, ssent,
+             /\ UNCHANGED <<proto, mutual, cmutual, cred, cpc, c2m, m2s, s2m, m2c, held, first, ctr, str, cwseq, swseq, crseq, srseq, csent, ssent,
                             cgot, sgot, budget, hsFault, closed, capp, sapp, cacc, sacc>> /\ KeepT
 CEmitApp == cpend = 1 /\ CEmit("APP") /\ cpend' = 2
             /\ UNCHANGED <<l, cret, sret, ckeys, skeys, spend, cshut, sshut, cav, sav, cfin, sfin, ceof, seof, wpos, wmax, rpos>>
@@ -105,7 +105,7 @@ Silent == SilentHs \/ CFailSend \/ SFailSend \/ CEmitApp \/ SEmitApp \/ CEmitClo
 
 (* ------------------------------ logged events ------------------------------ *)
 TStart == /\ IsEvent("Start") /\ proto = 0
-          /\ proto' = Ev.proto /\ mutual' = (Ev.mutual = 1)
+          /\ proto' = Ev.proto /\ mutual' = (Ev.mutual = 1) /\ cmutual' = (Ev.mutual = 1)
           /\ cred' = [sOK |-> Ev.sok, sPoss |-> Ev.sposs, sEnc |-> Ev.senc, cCert |-> (Ev.ccert = 1), cOK |-> Ev.cok, cPoss |-> Ev.cposs]
           /\ cpc' = 1 /\ spc' = 1
           /\ UNCHANGED <<c2m, m2s, s2m, m2c, held, first, ctr, str, cwseq, swseq, crseq, srseq, csent, ssent, cgot, sgot,
@@ -116,7 +116,7 @@ TRec == /\ IsEvent("Rec")
                              ELSE s2m # <<>> /\ WireOK(Head(s2m)) /\ FwdS2C(FaultOf(Ev))
         /\ UNCHANGED <<cret, sret, ckeys, skeys, cpend, spend, cshut, sshut, cav, sav, cfin, sfin, ceof, seof, wpos, wmax, rpos>>
 TClose == /\ IsEvent("Close") /\ closed' = TRUE
-          /\ UNCHANGED <<proto, mutual, cred, cpc, spc, c2m, m2s, s2m, m2c, held, first, ctr, str, cwseq, swseq, crseq, srseq,
+          /\ UNCHANGED <<proto, mutual, cmutual, cred, cpc, spc, c2m, m2s, s2m, m2c, held, first, ctr, str, cwseq, swseq, crseq, srseq,
                          csent, ssent, cgot, sgot, budget, hsFault, capp, sapp, cacc, sacc>>
           /\ UNCHANGED <<cret, sret, ckeys, skeys, cpend, spend, cshut, sshut, cav, sav, cfin, sfin, ceof, seof, wpos, wmax, rpos>>
           /\ ~Honest    \* the proxy only ever has to close a stuck run after it applied a fault: an honest run that stalls is a liveness failure
